@@ -449,6 +449,15 @@ func (i *Lifecycler) ClaimTokensFor(ctx context.Context, ingesterID string) erro
 				return nil, false, fmt.Errorf("cannot claim tokens in an empty ring")
 			}
 
+			if _, exists := ringDesc.Ingesters[i.ID]; !exists {
+				// The instance is missing in the ring (e.g. the ring backend storage has been reset): add it back
+				// before claiming, with an updated registration timestamp (see updateConsul), instead of editing
+				// an empty entry.
+				i.setRegisteredAt(time.Now())
+				ro, rots := i.GetReadOnlyState()
+				ringDesc.AddIngester(i.ID, i.Addr, i.Zone, i.getTokens(), i.GetState(), i.getRegisteredAt(), ro, rots, nil)
+			}
+
 			tokens = ringDesc.ClaimTokens(ingesterID, i.ID)
 			// update timestamp to give gossiping client a chance register ring change.
 			ing := ringDesc.Ingesters[i.ID]
@@ -813,6 +822,16 @@ func (i *Lifecycler) verifyTokens(ctx context.Context) bool {
 	err := i.KVStore.CAS(ctx, i.RingKey, func(in interface{}) (out interface{}, retry bool, err error) {
 		ringDesc := GetOrCreateRingDesc(in)
 
+		if _, exists := ringDesc.Ingesters[i.ID]; !exists {
+			// The instance is missing in the ring (e.g. the ring backend storage has been reset): add it back with
+			// the tokens we remember and an updated registration timestamp (see updateConsul), instead of generating
+			// new tokens. The tokens are verified again at the next observation.
+			i.setRegisteredAt(time.Now())
+			ro, rots := i.GetReadOnlyState()
+			ringDesc.AddIngester(i.ID, i.Addr, i.Zone, i.getTokens(), i.GetState(), i.getRegisteredAt(), ro, rots, nil)
+			return ringDesc, true, nil
+		}
+
 		// At this point, we should have the same tokens as we have registered before
 		ringTokens, takenTokens := ringDesc.TokensFor(i.ID)
 
@@ -921,6 +940,12 @@ func (i *Lifecycler) autoJoin(ctx context.Context, targetState InstanceState) er
 	var ringDesc *Desc
 	err = i.KVStore.CAS(ctx, i.RingKey, func(in interface{}) (out interface{}, retry bool, err error) {
 		ringDesc = GetOrCreateRingDesc(in)
+
+		if _, exists := ringDesc.Ingesters[i.ID]; !exists {
+			// The instance is missing in the ring (e.g. the ring backend storage has been reset): it is registered
+			// again below, so the registration timestamp needs to be updated (see updateConsul).
+			i.setRegisteredAt(time.Now())
+		}
 
 		// At this point, we should not have any tokens, and we should be in PENDING state.
 		myTokens, takenTokens := ringDesc.TokensFor(i.ID)
